@@ -225,10 +225,18 @@ def offs : Nat → List (List Nat)
   | 0 => [[]]
   | r + 1 => (offs r).flatMap fun t => [0 :: t, 1 :: t, 2 :: t]
 
+/-- read all listed positions; `none` if one of the reads fails -/
+def readAll {α : Type} (f : List Nat → Option α) : List (List Nat) → Option (List α)
+  | [] => some []
+  | d :: ds =>
+    match f d, readAll f ds with
+    | some x, some xs => some (x :: xs)
+    | _, _ => none
+
 /-- read the listed offsets around cell `c` from a padded array; `none` if one of them is
 outside the array -/
 def readNb {α : Type} (a : Arr α) (reads : List (List Nat)) (c : List Nat) : Option (List α) :=
-  reads.mapM fun d => a.get? (vadd c d)
+  readAll (fun d => a.get? (vadd c d)) reads
 
 /-- apply the stencil `S` (which may depend on the position `pos` of the cell in the base grid)
 at cell `c` of the padded array `a` -/
